@@ -262,7 +262,29 @@ func analyseCW(c *fw.Ctx, cs *cwCase, ex *doubles.Exchange, callErr error, w *cw
 		if c != nil {
 			c.Distinct(dirCW + "|multiget|" + pathsClass(cs.MultiGet.Paths) + "|" + selClass(libSel(&cs.MultiGet.DataRequest)))
 		}
-		d := &differ{l: diffPaths("href", want, got)}
+		// A relative name may be written with "./" in front (RFC 3986 section
+		// 4.2: it must be when its first segment holds a colon); both spellings
+		// are the same reference. What it may not become is a URI with a scheme.
+		want = append([]string(nil), want...)
+		d := &differ{}
+		for i := range want {
+			if i >= len(got) || strings.HasPrefix(want[i], "/") {
+				continue
+			}
+			want[i] = strings.TrimPrefix(want[i], "./")
+			got[i] = strings.TrimPrefix(got[i], "./")
+			// a client that resolves the name itself - against the collection
+			// it addresses or against its endpoint - names the same resource
+			if dir := cs.Book[:strings.LastIndex(cs.Book, "/")+1]; got[i] == dir+want[i] || got[i] == endpointPath+want[i] {
+				got[i] = want[i]
+			}
+			raw := strings.TrimSpace(req.MultiGet.Hrefs[i])
+			observe("client→wire multiget", "relative name → "+relSpelling(raw))
+			if j := strings.IndexAny(raw, ":/?#"); j > 0 && raw[j] == ':' && isSchemeName(raw[:j]) {
+				d.add("href", "relative-name-reads-as-uri-with-scheme", fmt.Sprintf("href %q (for the relative name %q) is a URI of scheme %q, not a relative reference", raw, want[i], raw[:j]))
+			}
+		}
+		d.l = append(d.l, diffPaths("href", want, got)...)
 		d.selDiff(libSel(&cs.MultiGet.DataRequest), wireSel(&req.MultiGet.Sel))
 		w.Deltas = d.l
 		for _, x := range d.l {
@@ -272,11 +294,54 @@ func analyseCW(c *fw.Ctx, cs *cwCase, ex *doubles.Exchange, callErr error, w *cw
 	return probs
 }
 
+// endpointPath is the path of the endpoint every client of this check is
+// constructed with.
+const (
+	endpoint     = "http://h/base/"
+	endpointPath = "/base/"
+)
+
+// isSchemeName: ALPHA *( ALPHA / DIGIT / "+" / "-" / "." ) (RFC 3986 section 3.1).
+func isSchemeName(s string) bool {
+	for i, c := range s {
+		switch {
+		case c >= 'a' && c <= 'z', c >= 'A' && c <= 'Z':
+		case i > 0 && (c >= '0' && c <= '9' || c == '+' || c == '-' || c == '.'):
+		default:
+			return false
+		}
+	}
+	return s != ""
+}
+
+// relSpelling abstracts how a relative name was written as an href.
+func relSpelling(raw string) string {
+	switch {
+	case strings.HasPrefix(raw, "./"):
+		return "href with ./ in front"
+	case strings.HasPrefix(raw, "/"), strings.Contains(raw, "://"):
+		return "href resolved to an absolute one"
+	}
+	return "href verbatim (escaped)"
+}
+
+// relNames: member names relative to the collection, some with a colon in
+// their first segment (as a reference they need "./" in front, or they read
+// as a URI with a scheme).
+var relNames = []string{"a.vcf", "urn:uuid:1f0b5c3e.vcf", "Doe, John 09:30.vcf", "a:b", "sub/a:b.vcf", "x:y/z.vcf", "mailto:a@b", "1:2", "é:ü.vcf", "tel:+1-201-555-0123", "c++:x", "./a:b"}
+
+func genRelName(r *rand.Rand) string {
+	if r.Intn(3) == 0 {
+		return genSeg(r)
+	}
+	return pick(r, relNames)
+}
+
 // soloProblems sends a fresh copy of cs alone through a fresh client and
 // returns what is wrong with that request (quietly).
 func soloProblems(cs *cwCase) []problem {
 	cp := &doubles.Capture{}
-	cl, err := carddav.NewClient(cp, "http://h/base/")
+	cl, err := carddav.NewClient(cp, endpoint)
 	if err != nil {
 		return []problem{{"client | not-constructed", err.Error()}}
 	}
@@ -295,7 +360,7 @@ func execCW(c *fw.Ctx, cs *cwCase) {
 	defer c.JournalDone()
 	pristine := cs.clone()
 	cp := &doubles.Capture{}
-	cl, err := carddav.NewClient(cp, "http://h/base/")
+	cl, err := carddav.NewClient(cp, endpoint)
 	if err != nil {
 		c.Inconclusive("C09 harness: cannot construct client: " + err.Error())
 		return
@@ -345,7 +410,7 @@ func execReuse(c *fw.Ctx, rc *reuseCase) {
 	pristine := shared.clone()
 	pristineRC := &reuseCase{Dir: dirCW, Family: "reuse", Op: rc.Op, Books: rc.Books, Query: pristine.Query, MultiGet: pristine.MultiGet}
 	cp := &doubles.Capture{}
-	cl, err := carddav.NewClient(cp, "http://h/base/")
+	cl, err := carddav.NewClient(cp, endpoint)
 	if err != nil {
 		c.Inconclusive("C09 harness: cannot construct client: " + err.Error())
 		return
@@ -518,7 +583,7 @@ func execOverlap(c *fw.Ctx, oc *overlapCase) {
 		defer runtime.GOMAXPROCS(prev)
 	}
 	g := newGate(k, oc.Order)
-	cl, err := carddav.NewClient(g, "http://h/base/")
+	cl, err := carddav.NewClient(g, endpoint)
 	if err != nil {
 		c.Inconclusive("C09 harness: cannot construct client: " + err.Error())
 		return
@@ -574,6 +639,13 @@ func genCWCase(r *rand.Rand, book string, multiget bool) *cwCase {
 		mg := &carddav.AddressBookMultiGet{Paths: genPaths(r, book, 0), DataRequest: toLibData(&rfc6352.Selection{Data: genAddressData(r, false)})}
 		if r.Intn(10) == 0 {
 			mg.DataRequest.AllProp = true // AllProp together with Props
+		}
+		if r.Intn(8) == 0 {
+			for i := range mg.Paths {
+				if r.Intn(2) == 0 {
+					mg.Paths[i] = genRelName(r)
+				}
+			}
 		}
 		cs := &cwCase{Op: "multiget", Book: book, MultiGet: mg}
 		addSpare(r, cs)
